@@ -77,6 +77,10 @@ def np_compare(lib, run, op, a, b):
         fn = {'LtE': lemask, 'Lt': ltmask, 'Gt': gtmask, 'GtE': gemask, 'Eq': reqmask}.get(op)
         if fn is not None:
             return SeqV('B', fn(a.term, real(b)))
+        if op == 'NotEq':
+            return SeqV('B', T.bnot(reqmask(a.term, real(b))))
+    if isinstance(a, SeqV) and a.kind == 'A' and isinstance(b, ArmV) and op == 'NotEq':
+        return SeqV('B', T.bnot(T.eqmask(a.term, b.term)))
     if isinstance(a, SeqV) and a.kind == 'I' and isinstance(b, Num) and op == 'Eq':
         return SeqV('B', ieqmask(a.term, intterm(b)))
     if isinstance(a, MatV) and isinstance(b, (Num, BoolV)) and op in ('Gt', 'GtE', 'Lt', 'LtE'):
